@@ -239,7 +239,7 @@ CHECKS = {
         level="model_checking",
         text="spec/Resolve.tla models FileResolver.resolve as a machine (ArgFile / ArgDir / ArgGlob with seen/result, then Sort) over a "
              "13-entry universe (sizes at and over the limit, default- and user-excluded directories, a .flowmarkignore rule, symlinks to a "
-             "file inside / outside / dangling / to a directory) x 64 settings x every argument list up to the bound, and states the "
+             "file inside / outside / dangling / to a directory) x 96 settings (incl. a path-anchored exclude whose verdict depends on the walk root) x every argument list up to the bound, and states the "
              "property declaratively as Must <= result <= Must u May; TLC checks Complete, SoundK (open findings carved out by trigger) and "
              "OrderFree on every state. Every point is materialised on disk; FileResolver.resolve, the reversed argument list, a permuted "
              "directory listing order and (a subset) `flowmark --list-files` are observed, and spec/ResolveTrace.tla decides soundness, "
